@@ -655,8 +655,12 @@ def run_history(ctx, case, workdir, lines_b, impl_b, cases_b, direct, offers):
             old = sb.servers.get(sids[i])
             new = announce(i, v, ei)
             ctx.count("broker-reannounce:" + ("refused" if new is None else "identical-ignored" if new is old else "replaced"))
-            if new is not None and new is not old:
-                cur[i], since[i], present[i] = v, t, True
+            if new is not None:
+                # expectations follow the LATEST accepted announcement, whether or not the broker replaced its server object
+                # (seed C32-e kept the old object when only the certificates changed)
+                if v != cur[i] or new is not old:
+                    since[i] = t
+                cur[i], present[i] = v, True
         elif ev[0] == "p":
             i = ev[1]
             if not present[i]:
